@@ -355,7 +355,17 @@ func (s *c02State) facts(b *types.Block, now int64, ex c02Exec) string {
 				}
 				return "1"
 			})
-			parts = append(parts, fmt.Sprintf("%d:%s", tx.Expiration(), ok))
+			th := tx.Hash()
+			ids := fmt.Sprint(s.id("h", th[:]))
+			if tx.Type() == params.BoxTx {
+				if box, err := types.GetBox(tx.Data()); err == nil {
+					for _, sub := range box.SubTxList {
+						sh := sub.Hash()
+						ids += "+" + fmt.Sprint(s.id("h", sh[:]))
+					}
+				}
+			}
+			parts = append(parts, fmt.Sprintf("%d:%s:%s", tx.Expiration(), ok, ids))
 		}
 		add("txs", strings.Join(parts, ","))
 	}
